@@ -29,7 +29,7 @@ func checkC06(c AxisCase) (bool, *Violation) {
 	}
 	m := &c.D.Mappings[0]
 	rx := NewReceiver()
-	states := map[uint16]*c06axisState{}
+	states := map[string]*c06axisState{}
 	nontrivial := false
 	base := c.D.Channel - 1
 	for i := range w.Steps {
@@ -44,10 +44,11 @@ func checkC06(c AxisCase) (bool, *Violation) {
 		dz := effectiveDeadzone(m, a)
 		sh := exactShape(a, dz, ws.Step.Val)
 		raw := ws.Step.Val
-		st := states[a.Code]
+		ak := a.Sub + "|" + fmt.Sprint(a.Code)
+		st := states[ak]
 		if st == nil {
 			st = &c06axisState{}
-			states[a.Code] = st
+			states[ak] = st
 		}
 		off, offNeg := 0, 0
 		if a.Off != nil {
@@ -387,8 +388,8 @@ func checkC08(c AxisCase) (bool, *Violation) {
 	}
 	m := &c.D.Mappings[0]
 	rx := NewReceiver()
-	dirs := map[uint16]*[2]c08dir{} // [0] positive, [1] negative
-	lastPre := map[uint16]*big.Rat{}
+	dirs := map[string]*[2]c08dir{} // [0] positive, [1] negative
+	lastPre := map[string]*big.Rat{}
 	nontrivial := false
 	for i := range w.Steps {
 		ws := &w.Steps[i]
@@ -408,18 +409,19 @@ func checkC08(c AxisCase) (bool, *Violation) {
 		dz := effectiveDeadzone(m, a)
 		sh := exactShape(a, dz, ws.Step.Val)
 		kv := keyValue(sh)
-		d := dirs[a.Code]
+		ak := a.Sub + "|" + fmt.Sprint(a.Code)
+		d := dirs[ak]
 		if d == nil {
 			d = &[2]c08dir{}
-			dirs[a.Code] = d
+			dirs[ak] = d
 		}
 		// the device assumes every axis starts at its physical rest and ignores an event that repeats the
 		// previous shaped position; nothing is asserted about such an event (it emitted nothing)
-		prev, seen := lastPre[a.Code]
+		prev, seen := lastPre[ak]
 		if !seen {
 			prev = new(big.Rat)
 		}
-		lastPre[a.Code] = sh.PreFlip
+		lastPre[ak] = sh.PreFlip
 		if prev.Cmp(sh.PreFlip) == 0 && len(ws.Res.Out) == 0 {
 			classify("repeated position (no output, nothing asserted)")
 			continue
